@@ -122,3 +122,5 @@ def run(rep, tier):
     sibling_argumentize(rep)
     visitor_coverage(rep)
     interception_table(rep)
+    from .. import controls
+    controls.route_controls(rep)
